@@ -30,6 +30,9 @@ Lemma tables_populated :
   && has "static-access-tail-field" tail_table && has "remove-tail-field" tail_table
   && has "map" tail_table && has "freeze" tail_table && has "merge-left" tail_table
   && has "fields" tail_table && has "equality-self" tail_table && has "insert-new-field" tail_table
+  && has "nested-all-fields:static-access-tail-field" tail_table && has "nested-no-field:remove-tail-field" tail_table
+  && has "nested-all-fields:map" tail_table && has "row-roundtrip-nested-all-fields" allowed_table
+  && has "row-roundtrip-higher-rank" allowed_table && Nat.leb 150 (List.length tail_table)
   = true.
 Proof. vm_compute. reflexivity. Qed.
 
